@@ -15,7 +15,7 @@ RULE = (
     "unit translation, and a three-step rotation ladder about every axis; non-trivial = distinct (mesh, spar) configurations"
 )
 ASSUMPTIONS = ["finite alphabets for mesh shapes and spar locations; nx<=4, ny<=5", "OpenMDAO/NumPy trusted"]
-BOUND = {"quick": "nx<=4, ny<=5; export chain: every ordered selection of 1-3 surfaces x 3 symmetry patterns", "thorough": "nx<=5, ny<=7"}
+BOUND = {"quick": "nx<=4, ny<=5 exhaustively + production-size meshes 7x12, 9x17, 6x11 (thorough also 10x31, 3x40); export chain: every ordered selection of 1-3 surfaces x 3 symmetry patterns", "thorough": "nx<=5, ny<=7"}
 TOL = 1e-10
 
 
@@ -51,6 +51,13 @@ def states(tier, seed):
             # the same surface whose dictionary also carries the documented geometry keys (reference axis, sweep, twist ...)
             st.append(dict(part="disp", nx=nx, ny=ny, side=side, pf=pf, origin=fo, xkeys=True, fam=fam))
             st.append(dict(part="loads", nx=nx, ny=ny, side=side, pf=pf, origin=fo, xkeys=True, fam=fam))
+    # production-size meshes (index arithmetic of the transfer beyond nx = 5, ny = 7)
+    big = [(7, "left", 12), (9, "full", 17), (6, "right", 11)] + ([(10, "full", 31), (3, "left", 40)] if tier == "thorough" else [])
+    for (nx, side, ny), pf, fo in itertools.product(big, ["twdi", "camber"], [0.35, 0.0, "wingbox"]):
+        st.append(dict(part="loads", nx=nx, ny=ny, side=side, pf=pf, origin=fo, fam=fam))
+        st.append(dict(part="disp", nx=nx, ny=ny, side=side, pf=pf, origin=fo, fam=fam))
+    for (nx, side, ny), nsurf in itertools.product(big, [1, 2]):
+        st.append(dict(part="mpf", nx=nx, ny=ny, side=side, pf="twdi", nsurf=nsurf, fam=fam))
     return st, 0
 
 
